@@ -1,4 +1,5 @@
 import Labella.Driver.LayoutCmd
+import Labella.Driver.TextCmd
 /-! Line-protocol driver: one case per line in, one verdict line out.  A line that cannot be parsed is
 answered `bad-line` (an infrastructure error for the harness, never a default verdict). -/
 open Labella.Driver
@@ -10,6 +11,9 @@ def dispatch (line : String) : String :=
     | "force" :: rest => forceCmd rest
     | "dist" :: rest => distCmd rest
     | "perm" :: rest => permCmd rest
+    | "names" :: rest => namesCmd rest
+    | "color" :: rest => colorCmd rest
+    | "tex" :: rest => texCmd rest
     | _ => none
   r.getD "bad-line"
 
